@@ -221,6 +221,9 @@ class Emitter:
                     opts["loops"][k] = {"iter": it, "text": []}; cur = opts["loops"][k]["text"]
                 elif key == "closure":
                     opts.setdefault("closures", {})[int(rest)] = []; cur = opts["closures"][int(rest)]
+                elif key == "begin":
+                    # ghost text at the very start of the function body (robust against any restructuring of the body)
+                    opts["begin"] = []; cur = opts["begin"]
                 elif re.match(r"(before|after|after-stmt)(\[\d+\])?$", key):
                     mm = re.match(r"(before|after|after-stmt)(\[(\d+)\])?$", key)
                     a = {"where": mm.group(1), "anchor": rest, "text": [], "nth": int(mm.group(3)) if mm.group(3) else None}
@@ -335,7 +338,7 @@ class Emitter:
             # keep the contract (callers are still checked against it) but do not verify the body; loop
             # invariants / proof hints are dropped because they may not even type-check any more
             opts["attr"] = list(opts["attr"]) + ["#[verifier::external_body]"]
-            opts["loops"] = {}; opts["anchors"] = []; opts["closures"] = {}
+            opts["loops"] = {}; opts["anchors"] = []; opts["closures"] = {}; opts["begin"] = None
             rec.mode = "demoted"; rec.demoted = True
             opts["drop_body"] = True
         if rec.mode == "assumed" and opts["sig"] is None and not opts.get("cut"):
@@ -476,6 +479,11 @@ class Emitter:
                     edits.append((toks[e - 1].end, toks[e - 1].end, G_OPEN + " } " + G_CLOSE, "ghost:closure"))
                 rec.clauses.append(("closure%d" % n, txt))
 
+        # ---- ghost text at body start
+        if opts.get("begin") and not opts.get("cut"):
+            txt = "\n".join(opts["begin"])
+            edits.append((toks[bo].end, toks[bo].end, "\n" + G_OPEN + "\n" + txt + "\n" + G_CLOSE + "\n", "ghost:anchor"))
+            rec.clauses.append(("begin", txt))
         # ---- anchors
         for a in opts["anchors"]:
             pat = [t.text for t in tokenize(a["anchor"])]
@@ -603,6 +611,8 @@ class Emitter:
         rec.out_last = self._cur_line(); rec.p_last = len(self.pieces)
         self._out("\n")
         rec.src_tokens = [t.text for t in toks[kw:end + 1]]
+        import hashlib as _h
+        rec.src_hash = _h.sha1(" ".join(rec.src_tokens).encode()).hexdigest()[:16]
         self.records.append(rec)
 
 # ----------------------------------------------------------------------
